@@ -83,7 +83,7 @@ pub fn set_decl_direct(on: bool) { DECL_DIRECT.with(|s| s.set(on)); PENDING_DIRE
 /// through task executions (cyclic validation), so that a missed cycle is a verdict instead of a stack overflow.
 pub fn nest_enter() {
   let d = NEST.with(|n| { let v = n.get() + 1; n.set(v); v });
-  if d > 4 * (MAX_TASKS + 2) {
+  if d > 4 * (task_bound() + 2) {
     NEST.with(|n| n.set(0));
     panic!("{}", RECURSION_MSG);
   }
@@ -105,7 +105,12 @@ pub fn log(ev: Ev) {
   if n == RUNAWAY_EVENTS { panic!("{}", RUNAWAY_MSG); }
 }
 pub fn take_log() -> Vec<Ev> { LOG.with(|l| std::mem::take(&mut *l.borrow_mut())) }
-pub fn set_program(p: Option<Prog>) { PROGRAM.with(|c| *c.borrow_mut() = p); }
+pub fn set_program(p: Option<Prog>) {
+  TASK_BOUND.with(|b| b.set(p.as_ref().map(|p| p.bodies.len()).unwrap_or(0).max(MAX_TASKS)));
+  PROGRAM.with(|c| *c.borrow_mut() = p);
+}
+thread_local! { static TASK_BOUND: StdCell<usize> = StdCell::new(MAX_TASKS); }
+fn task_bound() -> usize { TASK_BOUND.with(|b| b.get()) }
 pub fn reset_ticks(crash_at: Option<usize>) {
   TICKS.with(|t| t.set(0));
   CRASH_AT.with(|c| c.set(crash_at));
@@ -358,7 +363,7 @@ impl Task for VTask {
       prog.bodies.get(self.0 as usize).cloned().unwrap_or_else(|| panic!("HARNESS-BUG: task T{} not in program", self.0))
     });
     let depth = DEPTH.with(|d| { let v = d.get() + 1; d.set(v); v });
-    if depth > MAX_TASKS + 2 {
+    if depth > task_bound() + 2 {
       // Bounds recursion: a cycle that pie does not diagnose shows up here instead of as a stack overflow.
       panic!("{}", RECURSION_MSG);
     }
